@@ -566,10 +566,29 @@ pub fn gen_dn_value(r: &mut Rng, maxlen: usize) -> DnValueR {
         }
         _ => {
             let n = len(r);
+            if r.chance(1, 3) {
+                // what `push(ty, "text")` produces for ordinary input: a UTF8String of plain ASCII
+                return DnValueR::Utf8(s_from(r, PRINTABLE, n, n));
+            }
             DnValueR::Utf8((0..n).map(|_| if r.chance(1, 8) { *r.pick(&ASTRAL) } else { *r.pick(&UNI) }).collect())
         }
     }
 }
+
+/// Registered attribute types that rcgen has no enum variant for; callers reach them only as
+/// custom types. Several have a syntax of their own in RFC 5280 / 4519 (IA5String, PrintableString).
+pub const REGISTERED_TYPES: [&[u64]; 10] = [
+    &[1, 2, 840, 113549, 1, 9, 1],            // emailAddress
+    &[0, 9, 2342, 19200300, 100, 1, 25],      // domainComponent
+    &[0, 9, 2342, 19200300, 100, 1, 1],       // userId
+    &[2, 5, 4, 5],                            // serialNumber
+    &[2, 5, 4, 12],                           // title
+    &[2, 5, 4, 4],                            // surname
+    &[2, 5, 4, 42],                           // givenName
+    &[2, 5, 4, 46],                           // dnQualifier
+    &[1, 2, 840, 113549, 1, 9, 2],            // unstructuredName
+    &[1, 3, 6, 1, 4, 1, 311, 60, 2, 1, 3],    // jurisdictionOfIncorporationCountryName
+];
 
 pub const STD_TYPES: [DnTypeR; 6] =
     [DnTypeR::Country, DnTypeR::Locality, DnTypeR::State, DnTypeR::Org, DnTypeR::OrgUnit, DnTypeR::Cn];
@@ -580,6 +599,7 @@ pub fn gen_dn_type(r: &mut Rng) -> DnTypeR {
         // custom types whose OID collides with a standard one: distinct keys, same wire OID
         6 => DnTypeR::Custom(STD_TYPES[r.usize(6)].oid()),
         7 => DnTypeR::Custom(vec![2, 5, 4, r.range(1, 60)]),
+        8 => DnTypeR::Custom(r.pick(&REGISTERED_TYPES).to_vec()),
         _ => DnTypeR::Custom(gen_oid(r)),
     }
 }
